@@ -26,7 +26,7 @@ func (c *Ctx) runPathsWith(fd *ast.FuncDecl, conf func(*SX)) ([]*Path, string) {
 		}
 	}
 	v := c.view(fd)
-	paths = panicTailNorm(paths)
+	paths = panicTailNorm(tryExitNorm(paths))
 	if !x.KeepUnboxed {
 		if os.Getenv("ANYCHECK_SKIP") != "arm" {
 			paths = c.kindArmNorm(paths)
